@@ -1,0 +1,59 @@
+//! Verification hooks. Compiled only with `--cfg geo_booleanop_verif`; with the flag off this
+//! module does not exist and the crate is unchanged.
+//!
+//! H1 event budget: `subdivide` counts the sweep events it pops (per thread) and panics with a
+//! distinctive message once a harness-set budget is exceeded, so that a runaway sweep shows up
+//! as an outcome instead of hanging the harness.
+//! H2 step trace: a per-thread sink of step records emitted at the critical steps of the sweep.
+use std::cell::{Cell, RefCell};
+
+pub const BUDGET_MESSAGE: &str = "verif: sweep event budget exceeded";
+
+thread_local! {
+    static BUDGET: Cell<u64> = const { Cell::new(u64::MAX) };
+    static POPPED: Cell<u64> = const { Cell::new(0) };
+    static TRACE_ON: Cell<bool> = const { Cell::new(false) };
+    static TRACE: RefCell<Vec<String>> = const { RefCell::new(Vec::new()) };
+}
+
+/// Set the event budget of the current thread and reset the counter.
+pub fn set_budget(budget: u64) {
+    BUDGET.with(|b| b.set(budget));
+    POPPED.with(|p| p.set(0));
+}
+
+/// Number of events popped by `subdivide` on this thread since the last `set_budget`.
+pub fn popped() -> u64 {
+    POPPED.with(|p| p.get())
+}
+
+pub(crate) fn on_pop() {
+    let n = POPPED.with(|p| {
+        p.set(p.get() + 1);
+        p.get()
+    });
+    if n > BUDGET.with(|b| b.get()) {
+        panic!("{}", BUDGET_MESSAGE);
+    }
+}
+
+/// Switch the step trace of the current thread on or off; switching on clears it.
+pub fn set_trace(on: bool) {
+    TRACE_ON.with(|t| t.set(on));
+    if on {
+        TRACE.with(|t| t.borrow_mut().clear());
+    }
+}
+
+pub fn trace_enabled() -> bool {
+    TRACE_ON.with(|t| t.get())
+}
+
+/// Take the step records collected so far.
+pub fn take_trace() -> Vec<String> {
+    TRACE.with(|t| std::mem::take(&mut *t.borrow_mut()))
+}
+
+pub(crate) fn emit(line: String) {
+    TRACE.with(|t| t.borrow_mut().push(line));
+}
